@@ -535,14 +535,11 @@ func runC18(ctx *runCtx) {
 		go func(i int) {
 			defer func() { <-sem }()
 			r := res{i: i}
-			func() {
-				defer func() {
-					if p := recover(); p != nil {
-						r.sh, r.w = "panic", fmt.Sprint(p)
-					}
-				}()
-				r.sh, r.w = runC18Case(cases[i], &r.line, &r.want)
-			}()
+			var line, want string
+			r.sh, r.w = guarded(40*time.Second, func() (string, string) { return runC18Case(cases[i], &line, &want) })
+			if r.sh != "case-hangs" {
+				r.line, r.want = line, want
+			}
 			out <- r
 		}(i)
 	}
